@@ -120,8 +120,9 @@ def huge_call(rng, labs, cheap=False):
     k = 49 if cheap else rng.randint(49, 53)
     big = 2 ** k + (rng.choice([0, 0, 1, 3]) if cheap else rng.choice([-1, 0, 0, 0, 1, 3]))
     a, b = rng.sample(labs, 2)
-    P = rng.choice([[((a,), F(1)), ((b,), F(-big))], [((a,), F(big)), ((b,), F(1)), ((), F(-big))],
-                    [((a, b), F(-big)), ((), F(rng.choice([0, 1])))]])
+    forms = [[((a,), F(1)), ((b,), F(-big))], [((a,), F(big)), ((b,), F(1)), ((), F(-big))],
+             [((a, b), F(-big)), ((), F(rng.choice([0, 1])))]]
+    P = rng.choice(forms[:2] if cheap else forms)        # (the third form may have a range of 2**k - 1: the plain case avoids it)
     lo, hi = extrema(P)
     mode = rng.choice(["none", "none", "exact", "loose", "left", "right"])
     b = {"none": None, "exact": [lo, hi], "loose": [lo - rng.randint(0, 2), hi + rng.randint(0, 2)],
